@@ -287,6 +287,11 @@ func cmdCheck(repo, verifDir, id, tier string) int {
 			knownObls = append(knownObls, k)
 			continue
 		}
+		if g.Bad != nil && g.Bad.Status == "solver-error" {
+			fmt.Printf("TOOL-ERROR property=%s obligation %s: every solver rejected the query (generator error): %s\n", id, k, head(g.Bad.Raw, 200))
+			toolErrs++
+			continue
+		}
 		if haveBase && !baseSet[k] && chash != be.ContractHash {
 			fmt.Printf("TOOL-ERROR property=%s new obligation %s fails and the contract files differ from the recorded baseline (regenerate the baseline)\n", id, k)
 			toolErrs++
